@@ -198,7 +198,7 @@ def obligations(tier):
                         'samples': [(1, 2048, 2049)], 'stubs': ['M_struct', 'M_out', 'M_image', 'constant clock']})
     # skeleton sk9 (a directory growing to two sectors around sub-directories; found the '..' length defect when run CONCRETELY through the
     # reference reader) does not exhaust under CrossHair (> 20 min even with one symbolic length: ~55 records decoded from symbolic bytes):
-    # outside the claim; the seeded change C03-1 that needs it is therefore NOT caught (recorded in DESIGN.md).
+    # outside the claim; the seeded change C03-1 that sk9 exhibits is caught by the packing lemma with a sub-directory instead (C03.d).
     from vf.props import packing
     obs += packing.obligations_for('C03.d', tier)
     for c in ([skel.cfg_of(4, None, None, False, False), skel.cfg_of(4, 3, '1.09', False, False)] if quick else
